@@ -316,7 +316,8 @@ class Gen(object):
                     names += ["Contact Information", "Activation Date"]
                 nm = self.ch(names)
                 attrs.append(self.tattr(nm))
-            it.update(max=self.ch([None, None, 0, 1, 2, 5]), offset=self.ch([None, None, 0, 1, 2, 7]), attrs=attrs)
+            it.update(max=self.ch([None, None, 0, 1, 2, 5, -1, -2]), offset=self.ch([None, None, 0, 1, 2, 7, -1, -3]),
+                      attrs=attrs)
         elif op == "get":
             w = None
             if self.p(0.25):
